@@ -5,6 +5,7 @@ package main
 import (
 	"fmt"
 	"go/types"
+	"os"
 	"strings"
 )
 
@@ -458,7 +459,9 @@ func (tc *TrCtx) tr0(e Expr) TVal {
 			if tc.ac != nil {
 				tc.setAC(r.t, tc.ac[x.t])
 			}
-			tc.emitAlloc(r)
+			if os.Getenv("GOVC_NOSLICEAC") == "" {
+				tc.emitAlloc(r)
+			}
 			return r
 		case *types.Array:
 			return TVal{fmt.Sprintf("(select %s %s)", x.t, i.t), u.Elem()}
